@@ -1,3 +1,5 @@
+#[cfg(feature = "iggy_verif")]
+use iggy::verif::tokio;
 use super::{Index, INDEX_SIZE};
 use error_set::ErrContext;
 use iggy::error::IggyError;
